@@ -23,6 +23,7 @@ import LfsModel.ApiReq
 import LfsModel.Checkout
 import LfsModel.LogScan
 import LfsModel.Prune
+import LfsModel.Fsck
 open Lfs
 
 namespace Oracle
@@ -499,6 +500,32 @@ def c05 : List String → String
      | _, _, _, _ => "bad-op")
   | _ => "bad-op"
 
+/-! ### C13 -/
+def c13 : List String → String
+  | ["fsck", fl, refs, tracked] =>
+    -- refs: `<oid>:<z|n>:<i|c|m>` ; tracked: `<id>:<c|n|r>`
+    let b := fun (i : Nat) => (fl.toList.getD i '0') == '1'
+    let refs? : Option (List Fs.Ref) := if refs == "-" then some [] else (refs.splitOn ",").mapM fun t =>
+      match t.splitOn ":" with
+      | [o, z, st] => do
+        let o ← o.toNat?
+        let st ← (if st == "i" then some Fs.ObjState.intact else if st == "c" then some .corrupt else if st == "m" then some .missing else none)
+        pure ⟨o, z == "z", st⟩
+      | _ => none
+    let tr? : Option (List Fs.Tracked) := if tracked == "-" then some [] else (tracked.splitOn ",").mapM fun t =>
+      match t.splitOn ":" with
+      | [i, k] => do
+        let i ← i.toNat?
+        if k == "c" then some (Fs.Tracked.canonical i) else if k == "n" then some (.nonCanonical i) else if k == "r" then some (.notPointer i) else none
+      | _ => none
+    (match refs?, tr? with
+     | some refs, some tr =>
+       let o := Fs.fsck ⟨b 0, b 1, b 2⟩ refs tr
+       let show_ := fun (l : List Nat) => if l.isEmpty then "-" else String.intercalate "," (sortStr (l.eraseDups.map toString))
+       (if o.exitOk then "ok" else "fail") ++ " objects=" ++ show_ o.reportedObjects ++ " pointers=" ++ show_ o.reportedPointers ++ " moved=" ++ show_ o.moved
+     | _, _ => "bad-op")
+  | _ => "bad-op"
+
 def answer (line : String) : String :=
   match line.splitOn " " with
   | "C07" :: rest => c07 rest
@@ -517,6 +544,7 @@ def answer (line : String) : String :=
   | "C18" :: rest => c18 rest
   | "C04" :: rest => c04 rest
   | "C05" :: rest => c05 rest
+  | "C13" :: rest => c13 rest
   | ["C01", "mergeout", o, n] => (match unhex o, unhex n with
       | some o, some n => hex (Flt.mergeDriverOutput o n) | _, _ => "bad-op")
   | _ => "bad-op"
